@@ -123,10 +123,10 @@ PROPS = {
         "jobs": [
             {"name": "c07-regress", "pkg": COMPOSITE, "tests": ["TestVerifC07Regressions"]},
             {"name": "c07-exh", "pkg": COMPOSITE, "tests": ["TestVerifC07Exhaustive"], "timeout": {"quick": 900, "thorough": 3400},
-             "shards": {"quick": 8, "thorough": 14}},
+             "shards": {"quick": 14, "thorough": 14}},
             {"name": "c07-exh-deletes", "pkg": COMPOSITE, "tests": ["TestVerifC07ExhaustiveDeletes"], "tiers": ["thorough"], "timeout": {"thorough": 3400}, "shards": {"thorough": 14}},
             {"name": "c07-rand", "pkg": COMPOSITE, "tests": ["TestVerifC07Random"],
-             "checks": {"quick": 2400, "thorough": 100000}, "shards": {"quick": 8, "thorough": 12}},
+             "checks": {"quick": 1500, "thorough": 100000}, "shards": {"quick": 6, "thorough": 12}},
         ],
     },
     "C08": {
